@@ -121,6 +121,31 @@ def gen_destroy_scn(rnd, i):
     return blocks, progs, {"kind": "destroy", "users": 2}
 
 
+def gen_create_scn(rnd, i):
+    """asynchronous sockets are CREATED (registered) from user threads while the driver thread is inside Run, with peer data already
+    waiting: the driver may dispatch the new socket's handlers as soon as the registration releases the step lock"""
+    blocks = {5: [(96, [])] * rnd.choice([0, 1]), 6: [(96, [])], 7: [(96, [])]}
+    progs = {0: [(40, []), (10, [1, 0, 0])], 1: [(42, [])]}
+    nusers = rnd.choice([1, 2])
+    for u in range(nusers):
+        key = 2 + u
+        udp = rnd.random() < 0.3
+        ops = [(21 if udp else 20, [key]), (30, [key, 0, 16])]
+        if rnd.random() < 0.8:
+            ops.append((72 if udp else 70, [key, rnd.choice([3, 10])]))          # data is waiting before the socket is registered
+        ops.append((60, [key, 5, 0 if udp else 6]))
+        if rnd.random() < 0.5:
+            ops.append((72 if udp else 70, [key, 4]))
+        if rnd.random() < 0.5:
+            ops.append((96, []))
+        if rnd.random() < 0.5:
+            ops.append((50, [20 + u, 2, 0, 7]))
+        ops += [(14, []), (28, [key])]
+        progs[2 + u] = ops
+    progs[2 + rnd.randrange(nusers)].append((43, []))
+    return blocks, progs, {"kind": "create", "users": nusers}
+
+
 def gen_handlersend_scn(rnd, i):
     """the receive handler (driver thread) and application threads send on the same socket in the same step"""
     udp = rnd.random() < 0.4
@@ -199,7 +224,7 @@ def generate(rnd, tier, kinds=("todo", "send", "destroy", "stop")):
     for i in range(n):
         kind = kinds[i % len(kinds)]
         g = {"todo": gen_todo_scn, "send": gen_send_scn, "destroy": gen_destroy_scn, "stop": gen_stop_scn, "handlersend": gen_handlersend_scn,
-             "udpsend": gen_udpsend_scn, "pool": gen_pool_scn, "shift": gen_shift_scn}[kind]
+             "udpsend": gen_udpsend_scn, "pool": gen_pool_scn, "shift": gen_shift_scn, "create": gen_create_scn}[kind]
         blocks, progs, meta = g(rnd, i)
         progs = fix_todo_ops(progs)
         nthreads = max(progs) + 1
@@ -390,6 +415,8 @@ def mon_c04(meta, tr, progs):
         elif k == 26:
             key = (a[0], a[1])
             active[key] = max(0, active.get(key, 0) - 1)
+        elif k == 31 and a[0] != 1 and a[2] in (50, 51):
+            cancelled[a[3]] = False          # a (re)scheduling call has begun: the task may run before that call returns
         elif k == 32 and a[0] != 1:
             opc, arg = a[2], a[3]
             if opc == 28:
@@ -403,6 +430,8 @@ def mon_c04(meta, tr, progs):
                 cancelled[arg] = True
             elif opc in (50, 51):
                 cancelled[arg] = False
+        elif (k == 34 and a[0] == 1) or (k == 20 and a[0] in (41, 42) and a[1] == 0):
+            return "exception %s escaped from Run()/Step() on the driver thread (a handler or task was dispatched in a state no management call may expose)" % a[2:]
         elif k == 20 and a[0] in (60, 63) and a[1] == 1:
             destroyed.discard(a[2] if a[0] == 60 else a[3])
         elif k == 20 and a[0] == 51 and a[1] == 1:
@@ -513,6 +542,7 @@ def mon_todo(meta, tr):
     now = 0
     now_of = {}          # last clock reading per thread (a delay is relative to the caller's own reading)
     cur = {}             # thread currently inside a top-level op (handlers/tasks run on the driver thread 1)
+    inflight, ran_inflight, anon = {}, {}, {}
     for k, a in tr:
         if k == 1:
             now = max(now, a[0])
@@ -520,8 +550,25 @@ def mon_todo(meta, tr):
                 now_of[a[1]] = a[0]
         elif k == 31:
             cur[a[0]] = True
+            if a[2] in (50, 51):
+                # the scheduling call has begun: the driver may run the task before the call returns
+                if a[3] == -1:
+                    anon[a[0]] = now
+                else:
+                    inflight[a[3]] = now
+        elif k == 32 and a[2] in (50, 51):
+            if a[3] == -1:
+                anon.pop(a[0], None)
+            else:
+                inflight.pop(a[3], None)
         elif k == 20 and a[0] in (50, 51) and a[1] == 1:
             tid_, kind, val = a[2], a[3], a[4]
+            if tid_ in ran_inflight:
+                start = ran_inflight.pop(tid_)
+                due = val if kind == 1 else start[0] + val * MS
+                if due > start[1]:
+                    return "task of ToDo %d executed at %d, before its due time %d" % (tid_, start[1], due)
+                continue
             if kind == 1:
                 pending[tid_] = val
             elif kind == 2:
@@ -533,6 +580,14 @@ def mon_todo(meta, tr):
             pending.pop(a[2], None)
         elif k == 21 and a[0] == 5:
             tid_ = a[1]
+            if tid_ in inflight and not (tid_ in pending and pending[tid_] <= now):
+                # a (re)scheduling call is in progress and the previous schedule does not explain this run: judged when the call reports
+                ran_inflight[tid_] = (inflight.pop(tid_), now)     # (time the call began, time the task ran)
+                pending.pop(tid_, None)
+                continue
+            if tid_ not in pending and tid_ >= 1000 and anon:
+                ran_inflight[tid_] = (min(anon.values()), now)     # an anonymous ToDo (id known only when its creation reports)
+                continue
             if tid_ not in pending:
                 return "task of ToDo %d executed although it is not scheduled (cancelled, superseded or already run)" % tid_
             if pending[tid_] > now:
@@ -570,9 +625,9 @@ def mon_udp(meta, tr):
 # ---------------------------------------------------------------------------------------------------------
 SPECS = {
     "C04": ("Properties_C04", ["mutual_exclusion", "quiescent_during_management", "handlers_serial", "pause_exclusive"],
-            ("destroy", "todo", "send", "handlersend"), "san"),
+            ("destroy", "todo", "send", "handlersend", "create"), "san"),
     "C05": ("Properties_C05", ["no_deadlock", "bounded_yield", "wakeup_not_lost", "accepted_trace_is_model_run"],
-            ("todo", "send", "destroy", "stop", "handlersend", "udpsend", "shift"), "plain"),
+            ("todo", "send", "destroy", "stop", "handlersend", "udpsend", "shift", "create"), "plain"),
     "C08": ("Properties_C08", ["stop_wakes_poll", "run_returns_iff_flag", "run_needs_stop", "stop_before_entry", "stop_request_visible"],
             ("stop", "todo"), "plain"),
 }
@@ -705,7 +760,7 @@ def extra_stage(kinds, monitors, flavour="plain", n_quick=120):
         for i in range(n):
             kind = kinds[i % len(kinds)]
             g = {"todo": gen_todo_scn, "send": gen_send_scn, "destroy": gen_destroy_scn, "stop": gen_stop_scn, "handlersend": gen_handlersend_scn,
-                 "udpsend": gen_udpsend_scn, "pool": gen_pool_scn, "shift": gen_shift_scn}[kind]
+                 "udpsend": gen_udpsend_scn, "pool": gen_pool_scn, "shift": gen_shift_scn, "create": gen_create_scn}[kind]
             blocks, progs, meta = g(rnd, i)
             progs = fix_todo_ops(progs)
             nthreads = max(progs) + 1
